@@ -10,7 +10,7 @@ ENGINES = [
      "kind_free_text": "deviation-bounded enumeration of environment answers on one thread: fault kind/position per handler call, veto positions, map iteration orders; every placement up to the bound is executed on the real code inside a synctest bubble"},
     {"name": "SCHED", "path": "/verif/amc/shim/vsched + /verif/amc/explore + /verif/amc/instr", "serves_properties": ["C04"],
      "kind_free_text": "stateless model checking: source instrumenter (go build -overlay) turns every sync/atomic/go/channel operation into a schedule point of a cooperative scheduler running inside a testing/synctest bubble; DFS over choice lists with iterative deviation bounding, causal zero-cost continuation, conflict-based point reduction, replayable schedules"},
-    {"name": "SEQ", "path": "/verif/amc/kit", "serves_properties": ["C01", "C02", "C03", "C05", "C06", "C07", "C14"],
+    {"name": "SEQ", "path": "/verif/amc/kit", "serves_properties": ["C01", "C02", "C03", "C05", "C06", "C07", "C14", "C19"],
      "kind_free_text": "sequential explicit-state search: BFS over the states of real machines (successor = fresh instance + replayed shortest path + one operation), enumerated schema spaces, reference predicates"},
 ]
 NOTES = "All checks run the real code of /repo rebuilt from its working tree; exit 0 held / 1 unlisted violation / 2 harness error. known-findings.jsonl lists recorded genuine defects (printed as KNOWN-FINDING) and fixed ones (replayed as regressions)."
@@ -85,5 +85,12 @@ LEVELS = {
         "text": "Determinism is a relation between runs: instead of re-running and hoping, every map iteration the machine performs is made an explicit ordered choice and every placement of <= 1 (quick) / 2 (thorough) non-default orders is executed; results, time after each step, active-state order and handler call sequence must not change.",
         "design_ref": "DESIGN.md section 5 C11, section 4.3",
         "note": "Trusted: mapsites (go/types on the current tree) finds every range-over-map; instrumented build passes pkg/machine's own tests in pass-through mode. A new map range added upstream is picked up automatically.",
+    },
+    "C19": {
+        "engine": "SEQ",
+        "technique": "static scan + explicit-state BFS over every shipped schema's reachable active sets on the real machine",
+        "text": "Every exported schema found by scanning the current tree is checked statically and then explored breadth-first over single-state Add/Remove from the empty machine, component by component, with Require closure and mutual-Remove exclusivity evaluated in every reachable set; complete below the stated cap, which the evidence reports per schema.",
+        "design_ref": "DESIGN.md section 5 C19",
+        "note": "Trusted: Machine.Import/Export as the state loader (cross-checked against path replay). Schemas in package main examples are not covered.",
     },
 }
